@@ -173,6 +173,27 @@ Section ABFProofs.
     destruct xs as [|x xs]; [discriminate|]. cbn. f_equal. apply IH. now injection L.
   Qed.
 
+  (* walkers that all start from the same input data I and exchange before sampling anything hold I, once *)
+  Lemma map_repeat_ : forall (X Y : Type) (f : X -> Y) x (k : nat), map f (repeat x k) = repeat (f x) k.
+  Proof. induction k as [|k IH]; cbn [repeat map]; [reflexivity|]. now rewrite IH. Qed.
+
+  Theorem input_once : forall (I : grid (A:=A)) t t' (n : nat) k w,
+    nth_error (exchange G t' (repeat (w_init_input G I t) n)) k = Some w -> forall j, wG w j = I j /\ wL w j = I j.
+  Proof.
+    intros I t t' n k w Hk j. apply nth_error_In in Hk. unfold exchange in Hk.
+    destruct n as [|n]; [destruct Hk|]. cbn [repeat map] in Hk. rewrite map_repeat_ in Hk.
+    set (d := w_prepare G (w_init_input G I t)) in Hk.
+    assert (Hd : forall j, wL d j = g0 G). { intro j0. unfold d; cbn. apply gsub_self. }
+    assert (HG : forall j, wG (root_collect G d (map wL (repeat d n))) j = I j).
+    { intro j0. rewrite root_collect_G. rewrite map_repeat_.
+      assert (E : forall m j1, msum (repeat (wL d) m) j1 = g0 G).
+      { induction m as [|m IH]; intros j1; cbn [repeat msum]; [reflexivity|]. rewrite IH, Hd. apply (gl_0r G HL). }
+      rewrite E. unfold d; cbn. apply (gl_0r G HL). }
+    cbn [map] in Hk. destruct Hk as [<-|Hk].
+    - cbn [w_finish wG wL]. split; apply HG.
+    - rewrite map_map in Hk. apply in_map_iff in Hk. destruct Hk as (x & <- & _). cbn [w_finish w_receive wG wL]. split; apply HG.
+  Qed.
+
   (* the order in which the deltas reach replica 0 does not matter *)
   Lemma msum_perm : forall ms ms' j, Permutation ms ms' -> msum ms j = msum ms' j.
   Proof.
@@ -545,6 +566,11 @@ Lemma peer_death_old_refuted :
     root_fail_old Zgrp 1 (run Zgrp false peer_death_witness (init Zgrp 3)) = Some r /\
     own_data Zgrp w 0 = 2 /\ own_data Zgrp r 0 <> 2.
 Proof. eexists. eexists. split; [reflexivity|]. split; [reflexivity|]. vm_compute. split; [reflexivity|discriminate]. Qed.
+
+(* inputPrefix with sharing enabled by a script, before the repair: two walkers read one sample at address 0 and exchange *)
+Lemma input_old_refuted :
+  exists w, nth_error (exchange Zgrp 1 (repeat (w_init_input_old Zgrp (one_at 0) 0) 2)) 0 = Some w /\ wG w 0 = 2.
+Proof. eexists. split; [reflexivity|]. vm_compute. reflexivity. Qed.
 
 Definition script_restart_witness : list (ev (A:=Z)) := [ESample 0%nat 0 1; ESample 1%nat 0 1; EExchange 1].
 
